@@ -215,7 +215,7 @@ def self_test():
 
 
 LAWS = [
-    given_law("closed_forms", sep_cases(), sep_body, {"quick": 1500, "thorough": 8000}),
-    given_law("hankel", hankel_cases(), hankel_body, {"quick": 60, "thorough": 300}),
-    given_law("psd_matrix", psd_cases(), psd_body, {"quick": 300, "thorough": 2000}),
+    given_law("closed_forms", sep_cases(), sep_body, {"quick": 1500, "thorough": 20000}, shards={"quick": 3, "thorough": 16}),
+    given_law("hankel", hankel_cases(), hankel_body, {"quick": 60, "thorough": 750}, shards={"quick": 3, "thorough": 16}),
+    given_law("psd_matrix", psd_cases(), psd_body, {"quick": 300, "thorough": 5000}, shards={"quick": 3, "thorough": 16}),
 ]
